@@ -26,6 +26,9 @@ def main():
     os.chdir(HERE)
     for var in ("OMP_NUM_THREADS", "OPENBLAS_NUM_THREADS", "MKL_NUM_THREADS"):
         os.environ.setdefault(var, "1")
+    import warnings
+
+    warnings.filterwarnings("ignore")
     from vlib import runner
 
     try:
